@@ -369,8 +369,16 @@ def run_case(case, arrays, mon):
                     else:
                         arr[:] = arr + step
             elif kind == 'addprop' and 'late' not in pa.properties:
+                npa = pa.get_number_of_particles()
                 pa.add_property('late', default=5.0,
-                                data=rng.normal(size=pa.get_number_of_particles()))
+                                data=rng.normal(size=npa))
+                # properties of other element types added after the domain
+                # manager has built its scratch arrays
+                pa.add_property('late_i', type='int', default=-2,
+                                data=rng.integers(1, 1000, size=npa))
+                pa.add_property('late_l', type='long', default=-4,
+                                data=rng.integers(1000, 10 ** 6, size=npa))
+                mon['late_typed_props'] = mon.get('late_typed_props', 0) + 1
         before = [real_rows(pa) for pa in pas]
         counts = [pa.get_number_of_particles() for pa in pas]
         nn.update_domain()
